@@ -12,7 +12,7 @@ RULE = ("the invariance re-checked in child interpreters (python -O; multiproces
         "non-trivial = relabelling is not the identity and hits a boundary class; cases with tied competing candidates "
         "are only checked for validity (C03), not equality")
 
-BOUND = [127, 128, 129, 255, 256, 257, 32767, 32768, 65535, 65536, 65537, 70000, 2 ** 23 - 1, 2 ** 23, 2 ** 24 - 1]
+BOUND = [127, 128, 129, 255, 256, 257, 512, 32767, 32768, 65280, 65535, 65536, 65537, 70000, 2 ** 23 - 1, 2 ** 23, 2 ** 24 - 1]
 
 
 def relabel(a, mapping, dtype):
@@ -41,9 +41,21 @@ def tie_or_fragile(cfg, pred, ref):
     return info["tie"] or fragile
 
 
+GM = ["DSC", "IOU"]          # global metrics are reported values too (computed from the label maps the result object receives)
+
+
+def global_equal(a, b):
+    from common import same_value
+    for m in GM:
+        k = "global_bin_" + m.lower()
+        if k in a and k in b and not (isinstance(a[k], str) and isinstance(b[k], str)) and (isinstance(a[k], str) or isinstance(b[k], str) or not same_value(a[k], b[k])):
+            return f"{k}: {a[k]} vs {b[k]}"
+    return None
+
+
 def one_case(ctx, pred, ref, cfg, src):
     rng = ctx.rng
-    base = E.run_impl(cfg, pred, ref)
+    base = E.run_impl(cfg, pred, ref, global_metrics=GM)
     if isinstance(base, str):
         return
     base = base["ungrouped"]
@@ -86,9 +98,14 @@ def one_case(ctx, pred, ref, cfg, src):
         ctx.count("input." + cfg["input"])
         if max(vals, default=0) >= 2 ** 16:
             ctx.count("labels>=2^16")
-        got = E.run_impl(cfg, p2, r2)
+        got = E.run_impl(cfg, p2, r2, global_metrics=GM)
         if isinstance(got, str):
             ctx.violation(f"evaluation of the relabelled pair raised {got}", inp, impl=got, key={"kind": "raises"})
+            continue
+        dg = global_equal(base, got["ungrouped"])          # the foregrounds are the same sets of voxels, ties or not
+        if dg:
+            ctx.violation(f"result changes under relabelling/dtype ({np.dtype(dt)}): {dg}", inp,
+                          impl={"base": base, "relabelled": got["ungrouped"]}, key={"kind": "not-invariant"})
             continue
         if tie:
             ctx.count("tie_skipped")
@@ -527,9 +544,9 @@ def replay(ctx, rec):
     dt = np.dtype(i["dtype"])
     p2 = relabel(pred, {int(k): v for k, v in i["sigma"].items()}, dt)
     r2 = relabel(ref, {int(k): v for k, v in i["tau"].items()}, dt)
-    base = E.run_impl(i["cfg"], pred, ref)["ungrouped"]
-    got = E.run_impl(i["cfg"], p2, r2)
+    base = E.run_impl(i["cfg"], pred, ref, global_metrics=GM)["ungrouped"]
+    got = E.run_impl(i["cfg"], p2, r2, global_metrics=GM)
     ctx.case(i, True)
-    d = "raised " + got if isinstance(got, str) else summ_equal(base, got["ungrouped"], i["cfg"]["eval_metrics"])
+    d = "raised " + got if isinstance(got, str) else (global_equal(base, got["ungrouped"]) or summ_equal(base, got["ungrouped"], i["cfg"]["eval_metrics"]))
     if d:
         ctx.violation(f"result changes under relabelling/dtype: {d}", i, impl={"base": base, "relabelled": got}, key={"kind": "not-invariant"})
